@@ -186,19 +186,4 @@ def Separated : List Block → Prop
 def Doc.Legal (validURI : Bytes → Bool) (fs : Bytes → Option Bytes) (d : Doc) : Prop :=
   (∀ b ∈ d.blocks, b.Legal validURI fs) ∧ (∀ f ∈ d.trail, f.Legal) ∧ Separated d.blocks
 
-/-! ### the layouts today's parser gets wrong
-
-A *bare* block (no header line, no body line) whose request line is followed by comment
-lines only — its own comment items and the next block's lead — and then directly by the next
-request line. -/
-
-def Block.isBare (b : Block) : Bool := !b.hasHeader && b.body.isNone
-
-def CommentTrapFree : List Block → Prop
-  | [] => True
-  | [_] => True
-  | b :: b' :: rest =>
-    (b.isBare = true → (b.items = [] ∧ b'.lead = []) ∨ b'.lead.any Filler.isBlank = true) ∧
-    CommentTrapFree (b' :: rest)
-
 end Vegeta.Spec.TargetGrammar
